@@ -155,6 +155,7 @@ def run_case(case):
         X, watch = _present(X0, case["present"], g)
         C, wc = _present(C0, case["present_ctx"], g)
         watch += [("context " + nm, t, cl) for nm, t, cl in wc]
+        pristine = copy.deepcopy(obj)       # never called: reference for 'results do not depend on earlier calls'
         sd0 = {k: v.detach().clone() for k, v in obj.state_dict().items()}
         was_init = bool(sd0.get("initialized", torch.tensor(True))) if any(k.endswith("initialized") for k in sd0) else True
         methods = []
@@ -227,6 +228,41 @@ def run_case(case):
                         return res
                 else:
                     first_results[name] = outs
+        # hidden (non state_dict) state: after the sequence, the used object must still answer like a never-used copy, also for
+        # another batch size and - where the transform is shape-agnostic - another event shape
+        if case["mode"] == "eval" and kind == "transform" and not raised:
+            probes = [torch.cat([X0, X0.flip(0)], 0)[: n + 1 + (case["seed"] % 2)]]
+            if case["spec"]["t"] in ("identity", "paffine", "exp", "tanh", "logtanh", "leakyrelu", "sigmoid", "cauchycdf") and \
+                    not isinstance(case["spec"].get("scale"), list):
+                probes.append(torch.randn([2, 3, 2], generator=g) if case["dom"] == "R" else torch.rand([2, 3, 2], generator=g))
+            for P in probes:
+                Cp = None
+                if C0 is not None:
+                    if P.dim() != X0.dim() or list(P.shape[1:]) != list(X0.shape[1:]):
+                        continue
+                    Cp = torch.cat([C0, C0.flip(0)], 0)[: P.shape[0]]
+                try:
+                    with torch.no_grad():
+                        torch.manual_seed(7)
+                        a = obj(P, Cp)
+                        torch.manual_seed(8)
+                        r_ = pristine(P, Cp)
+                except Exception as e:
+                    res.labels.append("probe_raised:" + type(e).__name__)
+                    try:
+                        with torch.no_grad():
+                            pristine(P, Cp)
+                    except Exception:
+                        continue
+                    res.fail("call_history_dependence", site, "after calls %s a forward on a batch of shape %s raises %s although a never-used copy "
+                             "of the model handles it" % (methods, list(P.shape), type(e).__name__), probe=str(list(P.shape)))
+                    return res
+                # (not bitwise: a linear cache filled through inverse holds log|det| from LU factors, a fresh one from slogdet)
+                if any(u.shape != v.shape or not torch.allclose(u, v, rtol=1e-4, atol=1e-5, equal_nan=True) for u, v in zip(a, r_)):
+                    res.fail("call_history_dependence", site, "after calls %s a forward on a batch of shape %s differs from the same call on a never-used "
+                             "copy of the model (shapes %s vs %s)" % (methods, list(P.shape), [list(u.shape) for u in a], [list(v.shape) for v in r_]),
+                             probe=str(list(P.shape)))
+                    return res
         # model state
         sd1 = obj.state_dict()
         changed = [k for k in sd0 if not torch.allclose(sd0[k].float() if sd0[k].dtype != torch.bool else sd0[k].float(),
